@@ -209,9 +209,26 @@ def _is_sym_mask(k):
     return False
 
 
+def _concrete_mask(k):
+    if _is_sym_mask(k):
+        k = np.asarray(k, dtype=object)
+        return np.array([bool(x) for x in k.ravel()], dtype=bool).reshape(k.shape)
+    return k
+
+
 def _masked_assign(arr, key, value):
     """arr[mask] = value with a symbolic mask: element-wise If-merge (no forking)."""
     if isinstance(key, tuple):
+        vshape = np.shape(np.asarray(value, dtype=object)) if not _is_symval(value) else ()
+        if vshape != () and vshape != arr.shape:
+            try:
+                np.broadcast_to(np.empty(vshape), arr.shape)
+            except ValueError:
+                # one value per selected element: the selection must be concrete (it already
+                # is on this path if the same mask was used to read, as in `b[:, m] += v`)
+                ck = tuple(_concrete_mask(k) for k in key)
+                np.ndarray.__setitem__(arr, ck, np.asarray(value, dtype=object))
+                return
         # e.g. b[:, mask]: build the full boolean mask by broadcasting an index grid
         full = np.empty(arr.shape, dtype=object)
         full[...] = True
@@ -343,6 +360,7 @@ UF = {
     'isinf': lambda x: False if _is_symval(x) else bool(np.isinf(x)),
     'conjugate': _conj, 'reciprocal': _reciprocal, 'remainder': P.mod, 'mod': P.mod,
     'floor_divide': P.floordiv, 'floor': _floor, 'ceil': _ceil, 'hypot': _hypot,
+    'clip': lambda x, lo, hi: P.smin(P.smax(x, lo), hi),
     'deg2rad': lambda x: P.mul(x, math.pi / 180), 'radians': lambda x: P.mul(x, math.pi / 180),
     'rad2deg': lambda x: P.mul(x, 180 / math.pi), 'degrees': lambda x: P.mul(x, 180 / math.pi),
 }
